@@ -49,7 +49,9 @@ func init() {
 		"(reflect.Value).NumField":        ext۰reflect۰Value۰NumField,
 		"(reflect.Value).NumMethod":       ext۰reflect۰Value۰NumMethod,
 		"(reflect.Value).Pointer":         ext۰reflect۰Value۰Pointer,
-		"(reflect.Value).Set":             ext۰reflect۰Value۰Set,
+		"(reflect.Value).Set":             ext۰reflect۰Value۰Set2,
+		"(reflect.Value).FieldByName":     ext۰reflect۰Value۰FieldByName,
+		"reflect.Indirect":                ext۰reflect۰Indirect,
 		"(reflect.Value).String":          ext۰reflect۰Value۰String,
 		"(reflect.Value).Type":            ext۰reflect۰Value۰Type,
 		"(reflect.Value).Uint":            ext۰reflect۰Value۰Uint,
